@@ -1121,6 +1121,16 @@ class Merge3Merger:
 
         for change in iterator:
             base_path, other_path = change.path
+            copied = change.copied
+            changed_content = change.changed_content
+            if copied and not all_inventory_trees:
+                # A copy is a new entry in OTHER (its source has an entry of
+                # its own). Merge it as the addition it is, against whatever
+                # THIS has at that very path -- not as "absent in THIS",
+                # which would replace an identical entry THIS already has.
+                base_path = None
+                copied = False
+                changed_content = True
             if base_path is not None:
                 this_path = _mod_tree.find_previous_path(
                     self.base_tree, self.this_tree, base_path
@@ -1135,7 +1145,7 @@ class Merge3Merger:
                     # has the very same path. (A different path here is
                     # just an unrelated file of THIS with similar content.)
                     this_path = None
-            paths3 = change.path + (this_path,)
+            paths3 = (base_path, other_path, this_path)
 
             if all_inventory_trees:
                 this_entry = this_entries.get(this_path)
@@ -1166,6 +1176,8 @@ class Merge3Merger:
                     _path_dirname(this_path),
                 )
                 base_exec, other_exec = change.executable
+                if base_path is None:
+                    base_exec = None
                 executable3 = (
                     base_exec,
                     other_exec,
@@ -1174,12 +1186,12 @@ class Merge3Merger:
 
             yield (
                 getattr(change, "file_id", None),
-                change.changed_content,
+                changed_content,
                 paths3,
                 parents3,
                 names3,
                 executable3,
-                change.copied,
+                copied,
             )
 
     def _entries_lca(self):
